@@ -3,12 +3,13 @@
    Spec: Spec/FormulaSpec.v.  Only imports and final statements; proofs live in Proofs/FormulaProofs.v
    (the shunting-yard half is Proofs/ShuntingYardProofs.sy_complete).
 
-   FINDING (F7), machine-checked below: the evaluator does NOT compute the documented meaning when a result of
-   eq/neq/ge/le is used as a 0/1 number (they are NumPy booleans: `+` saturates, `-` and unary minus raise TypeError), and
-   min/max (Python builtins) raise ValueError on array operands — see C17_eval_denotes_documented_refuted,
-   C17_indicator_sum_saturates, C17_indicator_difference_crashes, C17_minmax_array_refuted. *)
-From Coq Require Import ZArith Bool List String Reals Lra Lia.
-From VF Require Import Num NumR GenOpTable Core ShuntingYard Grammar ShuntingYardProofs Formula FormulaSpec FormulaProofs.
+   History: at the originally pinned commit eq/neq/ge/le returned NumPy booleans and min/max were the Python builtins
+   (finding F7: `eq(x,1)+eq(y,1)` saturated at 1, `eq(x,1)-eq(y,1)` raised TypeError, min/max raised on arrays); repaired in
+   /repo (`scalar(...)`, np.minimum/np.maximum).  The model follows the repaired code and C17_eval_denotes is unrestricted.
+   Known finding (not repaired): two arity errors that cancel in the operand count are accepted (`max(1,2,3)+pow(2)`);
+   C17_illformed_rejected states exactly which token lists are provably rejected. *)
+From Coq Require Import ZArith Bool List String Reals Lra Lia PrimFloat.
+From VF Require Import Num NumR NumF GenOpTable Core ShuntingYard Grammar ShuntingYardProofs Formula FormulaSpec FormulaProofs.
 Import ListNotations.
 Local Open Scope string_scope.
 Local Open Scope list_scope.
@@ -53,18 +54,19 @@ Theorem C17_parse_rejects_cleanly (T : Type) (pn : string -> option T) toks e : 
 Proof. exact (parse_rejects_cleanly pn toks e). Qed.
 Print Assumptions C17_parse_rejects_cleanly.
 
-(* ---- evaluation = denotation (eq/neq/ge/le results used as truth values only) *)
-Theorem C17_eval_denotes oracle (HO : pow_oracle oracle) bigs vars t ty :
-  typeof true t = Some ty -> defined vars t -> arrays_ok bigs t ->
-  evaluate op_table oracle bigs vars t = Ok (tyval ty (denote vars t)).
-Proof. exact (eval_denotes_R oracle HO bigs vars t ty). Qed.
+(* ---- evaluation = denotation: relational functions are 0/1 numbers usable in arithmetic, logical operators act on
+        truth values (non-zero), truth-valued results only under logical operators or as the result *)
+Theorem C17_eval_denotes oracle (HO : pow_oracle oracle) vars t ty :
+  typeof t = Some ty -> defined vars t ->
+  evaluate op_table oracle vars t = Ok (tyval ty (denote vars t)).
+Proof. exact (eval_denotes_R oracle HO vars t ty). Qed.
 Print Assumptions C17_eval_denotes.
 
-(* array operands: elementwise *)
-Theorem C17_eval_rows_denotes oracle (HO : pow_oracle oracle) bigs rows t :
-  typeof true t = Some TyN -> arrays_ok bigs t -> Forall (fun vars => defined vars t) rows ->
-  evaluate_rows op_table oracle bigs rows t = Ok (map (fun vars => VF (denote vars t)) rows).
-Proof. exact (eval_rows_denotes oracle HO bigs rows t). Qed.
+(* array operands: elementwise (min/max included) *)
+Theorem C17_eval_rows_denotes oracle (HO : pow_oracle oracle) rows t :
+  typeof t = Some TyN -> Forall (fun vars => defined vars t) rows ->
+  evaluate_rows op_table oracle rows t = Ok (map (fun vars => VF (denote vars t)) rows).
+Proof. exact (eval_rows_denotes oracle HO rows t). Qed.
 Print Assumptions C17_eval_rows_denotes.
 
 (* ---- precedence and associativity, read off parse + evaluate on the reals *)
@@ -130,29 +132,32 @@ Proof.
 Qed.
 Print Assumptions C17_tokens_precedence.
 
-(* ---- F7: refutations *)
-Theorem C17_eval_denotes_documented_refuted : ~ eval_denotes_documented.
-Proof. exact eval_denotes_documented_refuted. Qed.
-Print Assumptions C17_eval_denotes_documented_refuted.
+(* ---- relational indicators in arithmetic; min/max elementwise and NaN-propagating *)
+Theorem C17_indicators_in_arithmetic oracle (HO : pow_oracle oracle) x y z :
+  run_formula oracle (xyz x y z) "eq(x,1)+eq(y,1)" = Ok (VF (ind (Reqb x (Rlit 1 0)) + ind (Reqb y (Rlit 1 0)))) /\
+  run_formula oracle (xyz x y z) "ge(x,y)-le(x,y)" = Ok (VF (ind (Rleb y x) - ind (Rleb x y))) /\
+  run_formula oracle (xyz x y z) ".-neq(x,y)*z" = Ok (VF (- ind (negb (Reqb x y)) * z)).
+Proof. exact (indicators_add oracle HO x y z). Qed.
+Print Assumptions C17_indicators_in_arithmetic.
 
-Theorem C17_indicator_sum_saturates oracle :
-  run_formula oracle [("x", 1); ("y", 1)] "eq(x,1)+eq(y,1)" = Ok (VB true) /\
-  denote [("x", 1); ("y", 1)] (FElem2 "+" (FElem2 "eq" (FVar "x") (FConst 1)) (FElem2 "eq" (FVar "y") (FConst 1))) = 2.
-Proof. exact (indicator_sum_saturates oracle). Qed.
-Print Assumptions C17_indicator_sum_saturates.
+Theorem C17_indicator_sum_is_two oracle : pow_oracle oracle -> run_formula oracle (xyz 1 1 0) "eq(x,1)+eq(y,1)" = Ok (VF 2).
+Proof. exact (indicator_sum_is_two oracle). Qed.
+Print Assumptions C17_indicator_sum_is_two.
 
-Theorem C17_indicator_difference_crashes oracle x y :
-  run_formula oracle [("x", x); ("y", y)] "eq(x,1)-eq(y,1)" = Err EInternal /\
-  run_formula oracle [("x", x); ("y", y)] ".-ge(x,y)" = Err EInternal.
-Proof. split; [exact (indicator_difference_crashes oracle x y)|exact (indicator_negation_crashes oracle x y)]. Qed.
-Print Assumptions C17_indicator_difference_crashes.
+Theorem C17_minmax_elementwise oracle (HO : pow_oracle oracle) rows :
+  Forall (fun vars => defined vars (FElem2 "min" (FVar "x") (FElem2 "max" (FVar "y") (FConst 0)) : fnode R)) rows ->
+  evaluate_rows op_table oracle rows (FElem2 "min" (FVar "x") (FElem2 "max" (FVar "y") (FConst 0))) =
+  Ok (map (fun vars => VF (Rmin (denote vars (FVar "x")) (Rmax (denote vars (FVar "y")) 0))) rows).
+Proof. exact (minmax_elementwise oracle HO rows). Qed.
+Print Assumptions C17_minmax_elementwise.
 
-Theorem C17_minmax_array_refuted oracle a b c :
-  evaluate_rows op_table oracle ["x"] [[("x", a)]; [("x", b)]] (FElem2 "min" (FVar "x") (FConst c)) = Err EValue /\
-  evaluate_rows op_table oracle ["x"] [[("x", a)]; [("x", b)]] (FElem2 "max" (FConst c) (FVar "x")) = Err EValue /\
-  evaluate_rows op_table oracle [] [[("x", a)]] (FElem2 "min" (FVar "x") (FConst c)) = Ok [VF (Rmin a c)].
-Proof. exact (minmax_array_refuted oracle a b c). Qed.
-Print Assumptions C17_minmax_array_refuted.
+(* on binary64: min/max propagate NaN in either position (numpy.minimum/maximum; Python's builtin min(1.0, nan) would give 1.0) *)
+Theorem C17_minmax_propagate_nan :
+  let ev t := evaluate (NT := NumF true []) op_table (fun _ _ _ => None) [("x", PrimFloat.nan); ("y", 1%float)] t in
+  ev (FElem2 "min" (FVar "x") (FVar "y")) = Ok (VF PrimFloat.nan) /\ ev (FElem2 "min" (FVar "y") (FVar "x")) = Ok (VF PrimFloat.nan) /\
+  ev (FElem2 "max" (FVar "x") (FVar "y")) = Ok (VF PrimFloat.nan) /\ ev (FElem2 "max" (FVar "y") (FVar "x")) = Ok (VF PrimFloat.nan).
+Proof. vm_compute. repeat split; reflexivity. Qed.
+Print Assumptions C17_minmax_propagate_nan.
 
 (* ---- non-vacuity *)
 (* the oracle hypothesis is satisfiable *)
@@ -173,7 +178,7 @@ Proof.
   - apply (P_bin op_table pnR _ "*" ("*", false, "np.multiply", 2%nat, 80, -1)%Z _ _
              ["("; "max"; "("; "x"; ","; "2"; ")"; ")"] ["pi"]); try (split; reflexivity); try reflexivity; try (cbn; lia).
     + apply (P_paren op_table pnR _ _ ["max"; "("; "x"; ","; "2"; ")"]).
-      apply (P_call2 op_table pnR 0%Z "max" ("max", true, "max", 2%nat, 100, -1)%Z _ _ ["x"] ["2"]); try (split; reflexivity); try reflexivity.
+      apply (P_call2 op_table pnR 0%Z "max" ("max", true, "np.maximum", 2%nat, 100, -1)%Z _ _ ["x"] ["2"]); try (split; reflexivity); try reflexivity.
       * apply P_var; [split; reflexivity|reflexivity].
       * apply P_num; [split; reflexivity|reflexivity].
     + apply (P_const op_table pnR _ "pi" ("pi", true, "lambda: np.pi", 0%nat, 100, -1)%Z); try (split; reflexivity); try reflexivity. cbn; lia.
@@ -185,13 +190,12 @@ Qed.
 
 (* a typed, defined formula with logical, relational, arithmetic parts, min/max and a power *)
 Example C17_eval_denotes_inhabited : forall x y : R, 0 < x ->
-  let t := FElem2 "or" (FElem2 "ge" (FElem2 "max" (FVar "x") (FConst 2)) (FElem0 "pi"))
+  let t := FElem2 "or" (FElem2 "+" (FElem2 "ge" (FElem2 "max" (FVar "x") (FVar "y")) (FElem0 "pi")) (FElem2 "eq" (FVar "x") (FConst 1)))
                        (FElem1 "!" (FElem2 "-" (FElem2 "^" (FVar "x") (FVar "y")) (FElem1 "sqrt" (FElem1 "abs" (FVar "y"))))) in
-  typeof true t = Some TyB /\ defined [("x", x); ("y", y)] t /\ arrays_ok ["y"] t.
+  typeof t = Some TyB /\ defined [("x", x); ("y", y)] t.
 Proof.
-  intros x y Hx t. split; [reflexivity|]. split.
-  - cbn. repeat split; try discriminate. intros _. exact Hx.
-  - cbn. repeat split; try discriminate; intros _; reflexivity.
+  intros x y Hx t. split; [reflexivity|].
+  cbn. repeat split; try discriminate. intros _. exact Hx.
 Qed.
 
 (* ill-formed inputs of each class are covered by the rejection theorem *)
